@@ -170,6 +170,10 @@ class World:
         self.cvec3 = g(nf, N3, 3) + 1j * g(nf, N3, 3)
         self.qv2 = np.array([[1, 0], [0, 1], [1, 1], [2, 0], [0, 2]], dtype=np.int64)
         self.qv3 = np.array([[1, 0, 0], [0, 1, 0], [0, 0, 1], [1, 1, 0]], dtype=np.int64)
+        # the same tables in the dtype the routines compute in (e.g. read with np.loadtxt): `astype(copy=False)` /
+        # `np.asarray(x, dtype)` alias the caller's array exactly when the dtype already matches
+        self.qv2f = self.qv2.astype(np.float64)
+        self.qv3f = self.qv3.astype(np.float64)
         self.sigmas2 = np.array([[1.0, 1.2], [1.2, 1.4]])
         self.sig_s2 = np.array([[0.3, 0.35], [0.35, 0.4]])
         self.rcut = np.array([[1.4, 1.5], [1.5, 1.6]])
@@ -295,7 +299,8 @@ def entries():
         return Call(lambda: W.obj("gr2d", lambda: _m("static.gr").gr(W.sk2[2], W.ppp2, 0.1, None)).getresults())
 
     # ---- S(q)
-    for cname, (arr, sn, qv) in {"bool": ("bool3", "s3", "qv3"), "scalar": ("scal3", "s3", "qv3"), "vector": ("vec2", "s2", "qv2")}.items():
+    for cname, (arr, sn, qv) in {"bool": ("bool3", "s3", "qv3"), "scalar": ("scal3", "s3", "qv3"), "vector": ("vec2", "s2", "qv2"),
+                                 "bool-f": ("bool3", "s3", "qv3f"), "scalar-f": ("scal3", "s3", "qv3f"), "vector-f": ("vec2", "s2", "qv2f")}.items():
         def mk(arr=arr, sn=sn, qv=qv):
             def b(W, o):
                 return Call(lambda: _m("static.sq").conditional_sq(getattr(W, sn).snapshots[0], getattr(W, qv), getattr(W, arr)[0]))
@@ -323,6 +328,11 @@ def entries():
     def _(W, o):
         f = o + ".csv"
         return Call(lambda: _m("static.sq").sq(W.sk[2], qvector=W.qv3, outputfile=f).getresults(), files=[(f, "csv", ident, 6)])
+
+    @reg("static.sq.sq.getresults")
+    def _(W, o):
+        f = o + ".csv"
+        return Call(lambda: _m("static.sq").sq(W.sk[2], qvector=W.qv3f, outputfile=f).getresults(), files=[(f, "csv", ident, 6)])
 
     # ---- BOO 3D
     def boo3(W, weights=False):
@@ -448,6 +458,15 @@ def entries():
     @reg("static.vector.vector_fft_corr")
     def _(W, o):
         return Call(lambda: V().vector_fft_corr(W.s2, W.qv2, W.vec2, 0.002, o), aux=[o + ".spectra.csv"])
+
+    @reg("static.vector.vector_decomposition_sq")
+    def _(W, o):
+        f = o + ".csv"
+        return Call(lambda: V().vector_decomposition_sq(W.s2.snapshots[0], W.qv2f, W.vec2[0], f), files=[(f, "csv", lambda r: r[1], 8)])
+
+    @reg("static.vector.vector_fft_corr")
+    def _(W, o):
+        return Call(lambda: V().vector_fft_corr(W.s2, W.qv2f, W.vec2, 0.002, o), aux=[o + ".spectra.csv"])
 
     # ---- geometric
     @reg("static.geometric.packing_capability_2d")
